@@ -256,6 +256,8 @@ def write_replay(pid, v, ob, r):
         rec["verdict"] = "violation confirmed on the real code"
     elif native and native.get("status") == "not-reproduced":
         rec["verdict"] = "obligation fails; the counter-model's entry state did not fail natively"
+    elif native:
+        rec["verdict"] = "obligation fails; native replay %s: %s" % (native.get("status"), native.get("detail", ""))
     else:
         rec["verdict"] = "obligation fails; no native replay for this kernel"
     with open(path, "w") as fh:
